@@ -293,3 +293,156 @@ Lemma mixed_element_form_default_refuted_l :
   type_view efd_counterexample (1, 5)%N =
   Some ([FE (mkE 8 1 true TBuiltin false false false None) false false], [])%N.
 Proof. reflexivity. Qed.
+
+(* ---------------- Schema.merge: per symbol space, first definition wins ---------------- *)
+
+Lemma lookup_decl_app k q a b :
+  lookup_decl k q (a ++ b) =
+  match lookup_decl k q b with Some r => Some r | None => lookup_decl k q a end.
+Proof.
+  induction a as [|x a IH]; cbn [app].
+  - destruct (lookup_decl k q b); reflexivity.
+  - rewrite !lookup_decl_cons, IH. destruct (lookup_decl k q b); reflexivity.
+Qed.
+
+(* filtering keeps a lookup intact when everything that matches the key is kept *)
+Lemma lookup_decl_filter k q (f : placed -> bool) l :
+  (forall p, In p l -> matches k q p = true -> f p = true) ->
+  lookup_decl k q (filter f l) = lookup_decl k q l.
+Proof.
+  induction l as [|x l IH]; intro H; [reflexivity|].
+  assert (Hl : forall p, In p l -> matches k q p = true -> f p = true) by (intros p Hp; apply H; right; exact Hp).
+  cbn [filter]. destruct (f x) eqn:Ef.
+  - rewrite !lookup_decl_cons, (IH Hl). reflexivity.
+  - rewrite lookup_decl_cons, (IH Hl). destruct (lookup_decl k q l); [reflexivity|].
+    destruct (matches k q x) eqn:Em; [|reflexivity].
+    rewrite (H x (or_introl eq_refl) Em) in Ef. discriminate.
+Qed.
+
+(* ... and yields nothing when nothing that matches is kept *)
+Lemma lookup_decl_filter_none k q (f : placed -> bool) l :
+  (forall p, In p l -> matches k q p = true -> f p = false) ->
+  lookup_decl k q (filter f l) = None.
+Proof.
+  intro H. apply lookup_none. intros p Hp. apply filter_In in Hp as [Hin Hf].
+  destruct (matches k q p) eqn:Em; [|reflexivity]. rewrite (H p Hin Em) in Hf. discriminate.
+Qed.
+
+Lemma schema_merge_is_union_l : forall self other k q,
+  lookup_decl k q (merge_schema self other) =
+  match lookup_decl k q self with Some r => Some r | None => lookup_decl k q other end.
+Proof.
+  intros self other k q. unfold merge_schema. rewrite lookup_decl_app.
+  destruct (lookup_decl k q self) as [r|] eqn:Es.
+  - rewrite lookup_decl_filter_none; [reflexivity|].
+    intros p _ Hm. apply matches_key in Hm. unfold pkey in Hm. inversion Hm; subst.
+    unfold present. rewrite Es. reflexivity.
+  - rewrite lookup_decl_filter; [destruct (lookup_decl k q other); reflexivity|].
+    intros p _ Hm. apply matches_key in Hm. unfold pkey in Hm. inversion Hm; subst.
+    unfold present. rewrite Es. reflexivity.
+Qed.
+
+(* symbol spaces are separate: whatever self holds under the same name in OTHER
+   tables (an element Item next to an incoming type Item) does not keep the entry out *)
+Lemma merge_symbol_spaces_separate_l : forall self other k q,
+  lookup_decl k q self = None ->
+  lookup_decl k q (merge_schema self other) = lookup_decl k q other.
+Proof. intros. rewrite schema_merge_is_union_l, H. reflexivity. Qed.
+
+(* the copy/paste slip (testing the ELEMENT table when taking over TYPES) loses the
+   type Item when self already has an element Item *)
+Definition merge_schema_wrong_table (self other : list placed) : list placed :=
+  self ++ filter (fun p => negb (present (match decl_kind (p_decl p) with KType => KElem | k => k end)
+                                         (p_ns p, decl_name (p_decl p)) self)) other.
+
+Lemma merge_wrong_table_refuted_l :
+  exists self other q,
+    lookup_decl KType q (merge_schema self other) <> None /\
+    lookup_decl KType q (merge_schema_wrong_table self other) = None.
+Proof.
+  exists [mkPl 2 true true true (DElem 7 (TNamed 2 7) false None)]%N,
+         [mkPl 2 true true true (DType 7 None [] [])]%N, (2, 7)%N.
+  split; [discriminate|reflexivity].
+Qed.
+
+Fixpoint first_some {A} (l : list (option A)) : option A :=
+  match l with
+  | [] => None
+  | Some x :: _ => Some x
+  | None :: l' => first_some l'
+  end.
+
+Lemma merge_all_lookup k q : forall l acc,
+  lookup_decl k q (merge_all l acc) =
+  match lookup_decl k q acc with
+  | Some r => Some r
+  | None => first_some (map (lookup_decl k q) l)
+  end.
+Proof.
+  induction l as [|x l IH]; intro acc; cbn [merge_all fold_left map first_some].
+  - destruct (lookup_decl k q acc); reflexivity.
+  - fold (merge_all l (merge_schema acc x)). rewrite IH, schema_merge_is_union_l.
+    destruct (lookup_decl k q acc); [reflexivity|]. destruct (lookup_decl k q x); reflexivity.
+Qed.
+
+Lemma matches_ns k q p : matches k q p = true -> p_ns p = fst q.
+Proof. intro H. apply matches_key in H. unfold pkey in H. inversion H. reflexivity. Qed.
+
+Lemma lookup_of_ns k q m T :
+  lookup_decl k q (of_ns m T) = if N.eqb m (fst q) then lookup_decl k q T else None.
+Proof.
+  unfold of_ns. destruct (N.eqb m (fst q)) eqn:E.
+  - apply N.eqb_eq in E. subst m. apply lookup_decl_filter.
+    intros p _ Hm. rewrite (matches_ns _ _ _ Hm). apply N.eqb_refl.
+  - apply lookup_decl_filter_none. intros p _ Hm. rewrite (matches_ns _ _ _ Hm).
+    rewrite N.eqb_sym. exact E.
+Qed.
+
+Lemma ns_order_complete : forall T seen p,
+  In p T -> existsb (N.eqb (p_ns p)) seen = true \/ In (p_ns p) (ns_order seen T).
+Proof.
+  induction T as [|x T IH]; intros seen p Hin; [destruct Hin|].
+  cbn [ns_order]. destruct Hin as [->|Hin].
+  - destruct (existsb (N.eqb (p_ns p)) seen) eqn:E; [left; reflexivity|right; left; reflexivity].
+  - destruct (existsb (N.eqb (p_ns x)) seen) eqn:E.
+    + apply IH. exact Hin.
+    + destruct (IH (p_ns x :: seen) p Hin) as [H|H].
+      * cbn [existsb] in H. apply orb_true_iff in H as [H|H].
+        -- apply N.eqb_eq in H. right. left. symmetry. exact H.
+        -- left. exact H.
+      * right. right. exact H.
+Qed.
+
+Lemma first_some_of_ns k q T : forall l,
+  first_some (map (lookup_decl k q) (map (fun m => of_ns m T) l)) =
+  if existsb (N.eqb (fst q)) l then lookup_decl k q T else None.
+Proof.
+  induction l as [|m l IH]; [reflexivity|].
+  cbn [map first_some existsb]. rewrite lookup_of_ns, IH. rewrite (N.eqb_sym (fst q) m).
+  destruct (N.eqb m (fst q)); cbn [orb].
+  - destruct (lookup_decl k q T); [reflexivity|]. destruct (existsb (N.eqb (fst q)) l); reflexivity.
+  - reflexivity.
+Qed.
+
+(* SchemaCollection.merge: the merged schema's tables are exactly the declarations
+   of all namespaces, each in the table of its own symbol space *)
+Lemma merged_tables_are_the_declarations_l : forall C k q,
+  lookup_decl k q (merged_schema C) = lookup_decl k q (placed_all C).
+Proof.
+  intros C k q. unfold merged_schema. set (T := placed_all C).
+  assert (Hc : forall p, In p T -> In (p_ns p) (ns_order [] T)).
+  { intros p Hp. destruct (ns_order_complete T [] p Hp) as [H|H]; [discriminate|exact H]. }
+  assert (Hnone : ~ In (fst q) (ns_order [] T) -> lookup_decl k q T = None).
+  { intro Hn. apply lookup_none. intros p Hp. destruct (matches k q p) eqn:Em; [|reflexivity].
+    exfalso. apply Hn. rewrite <- (matches_ns _ _ _ Em). apply Hc. exact Hp. }
+  destruct (ns_order [] T) as [|n rest] eqn:En.
+  - symmetry. apply Hnone. intros [].
+  - rewrite merge_all_lookup, lookup_of_ns, first_some_of_ns.
+    destruct (N.eqb n (fst q)) eqn:E1.
+    + destruct (lookup_decl k q T); [reflexivity|]. destruct (existsb (N.eqb (fst q)) rest); reflexivity.
+    + destruct (existsb (N.eqb (fst q)) rest) eqn:E2; [reflexivity|].
+      symmetry. apply Hnone. intros [H|H].
+      * subst n. rewrite N.eqb_refl in E1. discriminate.
+      * assert (existsb (N.eqb (fst q)) rest = true); [|congruence].
+        apply existsb_exists. exists (fst q). split; [exact H|apply N.eqb_refl].
+Qed.
